@@ -6,6 +6,7 @@ import Hive.Proofs.EventsIter
 import Hive.Proofs.Events
 import Hive.Proofs.EventsLink
 import Hive.Spec.Events
+import Hive.Gen.C15_Skel
 /-!
 # C15 — events, promises and notifiers deliver exactly the right calls
 
@@ -519,5 +520,90 @@ example :
   decide
 
 end iter
+
+/-! ## Regenerated tie: the synchronisation skeletons the protocol models were written against
+
+`Hive/Gen/C15_Skel.lean` is regenerated from the working tree on every run; a change of the lock /
+atomic / channel / select structure of these functions breaks these obligations. -/
+section skeletons
+open Hive.Gen.C15Skel
+
+/-- `Th.w0` (flag load, early return), `defer Deregister` (`Th.dr (some r) _`), the three-way `select` (`Th.w1`) and the re-check after the notify channel was chosen (`Th.w2`). -/
+theorem C15_skeleton_Listener_Wait : skel_Listener_Wait =
+    ["call l.deregistered.Load", "if{", "return", "}if", "defer helper Deregister", "select{",
+      "case recv l.channel", "call l.deregistered.Load", "if{", "return", "}if", "return",
+      "case recv l.deregisteredChan", "return", "case recv ctx.Done()", "return", "}select"] := by decide
+
+/-- `DPc.swap` (atomic Swap), `DPc.close`, then the `deregister` closure = `removeListener` (`DPc.remove`). -/
+theorem C15_skeleton_Listener_Deregister : skel_Listener_Deregister =
+    ["call l.deregistered.Swap", "if{", "close l.deregisteredChan", "}if"] := by decide
+
+/-- one critical section: look the entry up by value, return when it is not this listener's channel, decrement, close and delete at zero (`removeL` / `removeO`, `Notifier.removeListener`). -/
+theorem C15_skeleton_Notifier_removeListener : skel_Notifier_removeListener =
+    ["lock v.mutex", "defer unlock v.mutex", "call v.listeners.Get", "if{", "return", "}if", "if{",
+      "close valueListeners.channel", "call v.listeners.Delete", "}if"] := by decide
+
+/-- an unlocked pre-check, then one critical section closing the channel and deleting the entry (`notify`). -/
+theorem C15_skeleton_Notifier_Notify : skel_Notifier_Notify =
+    ["rlock v.mutex", "call v.listeners.Has", "if{", "runlock v.mutex", "return", "}if", "runlock v.mutex",
+      "lock v.mutex", "defer unlock v.mutex", "call v.listeners.Get", "if{", "return", "}if",
+      "close valueListener.channel", "call v.listeners.Delete"] := by decide
+
+/-- one critical section: join the existing entry or create one; both closures call `removeListener`. -/
+theorem C15_skeleton_Notifier_Listener : skel_Notifier_Listener =
+    ["lock v.mutex", "defer unlock v.mutex", "call v.listeners.Get", "if{", "func{", "helper removeListener",
+      "}func", "return", "}if", "call v.listeners.Set", "func{", "helper removeListener", "}func", "return"] := by decide
+
+/-- promise: the registering critical section (`Th.reg`), the unsubscribe critical section (`Th.unsub`), the inline call outside the lock when the collection was nil (`Th.regCall`). -/
+theorem C15_skeleton_Event1_OnTrigger : skel_Event1_OnTrigger =
+    ["func{", "lock e.mutex", "defer unlock e.mutex", "if{", "return", "}if", "call e.callbackIDs.Next",
+      "call e.callbacks.Set", "func{", "lock e.mutex", "defer unlock e.mutex", "if{",
+      "call e.callbacks.Delete", "}if", "}func", "return", "}func", "if{", "}if", "return"] := by decide
+
+/-- promise: the swap runs in a function literal inside the `range` expression (not expanded by the extractor); callbacks are called in the loop body outside the lock (`Th.trigCall`). -/
+theorem C15_skeleton_Event_Trigger : skel_Event_Trigger =
+    ["for{", "}for", "return"] := by decide
+
+/-- exactly one atomic `Add` per call (`EventsMax.Th.t0`, `.t2`). -/
+theorem C15_skeleton_triggerSettings_currentTriggerExceedsMaxTriggerCount : skel_triggerSettings_currentTriggerExceedsMaxTriggerCount =
+    ["call t.triggerCount.Add", "return"] := by decide
+
+/-- under the link mutex: unhook the previous link hook, then hook the new target (`unlinkSt` then `linkSt`). -/
+theorem C15_skeleton_event_linkTo : skel_event_linkTo =
+    ["lock e.linkMutex", "defer unlock e.linkMutex", "if{", "call e.link.Unhook", "}if", "if{", "}else{",
+      "call target.Hook", "}if"] := by decide
+
+/-- atomic id, then `Set` appends at the tail (`EventsIter.attach`). -/
+theorem C15_skeleton_event_Hook : skel_event_Hook =
+    ["call e.hooksCounter.Add", "call e.hooks.Set", "return"] := by decide
+
+/-- `Delete(id)` (`EventsIter.delete`, `Events.detach`). -/
+theorem C15_skeleton_Hook_Unhook : skel_Hook_Unhook =
+    ["call h.event.hooks.Delete"] := by decide
+
+/-- event check, then `ForEach` with the consumer: hook check → `Unhook` or (pre-trigger functions,) `Submit` to the pool or direct call (`Events.visitKey`, `EventsMax.Th`). -/
+theorem C15_skeleton_Event1_Trigger : skel_Event1_Trigger =
+    ["helper currentTriggerExceedsMaxTriggerCount", "if{", "return", "}if", "func{",
+      "helper currentTriggerExceedsMaxTriggerCount", "if{", "call hook.Unhook", "return", "}if", "if{",
+      "}if", "if{", "}if", "if{", "func{", "}func", "call workerPool.Submit", "}else{", "}if", "return",
+      "}func", "call e.hooks.ForEach"] := by decide
+
+/-- read `head` under the read lock, consumer outside the lock, read `next` under the read lock (`EventsIter.ItPc`). -/
+theorem C15_skeleton_OrderedMap_ForEach : skel_OrderedMap_ForEach =
+    ["if{", "return", "}if", "rlock o.mutex", "runlock o.mutex", "for{", "if{", "return", "}if",
+      "rlock o.mutex", "runlock o.mutex", "}for", "return"] := by decide
+
+/-- unlink under the write lock; the removed element's own `next` is not touched (`frozen`). -/
+theorem C15_skeleton_OrderedMap_Delete : skel_OrderedMap_Delete =
+    ["call o.Get", "if{", "return", "}if", "lock o.mutex", "defer unlock o.mutex", "call o.dictionary.Get",
+      "if{", "return", "}if", "call o.dictionary.Delete", "if{", "}else{", "}if", "if{", "}else{", "}if",
+      "return"] := by decide
+
+/-- append at the tail under the write lock. -/
+theorem C15_skeleton_OrderedMap_Set : skel_OrderedMap_Set =
+    ["lock o.mutex", "defer unlock o.mutex", "call o.dictionary.Get", "if{", "return", "}if", "if{",
+      "}else{", "}if", "call o.dictionary.Set", "return"] := by decide
+
+end skeletons
 
 end Hive.C15
